@@ -75,6 +75,17 @@ func (f *Frame) execCall(v ssa.Value, c *ssa.CallCommon, st *State) {
 			if callee.Origin() != nil {
 				name = canonName(callee.Origin())
 			}
+		} else if par, isPar := c.Value.(*ssa.Parameter); isPar && par.Parent() != nil {
+			// call through a function-valued PARAMETER: a contract named
+			// "<function>$<parameter>" specifies what the callback may do (its
+			// `params` line names the callback's arguments)
+			pn := canonName(par.Parent())
+			if par.Parent().Origin() != nil {
+				pn = canonName(par.Parent().Origin())
+			}
+			if _, has := f.vc.db.Contracts[pn+"$"+par.Name()]; has {
+				name = pn + "$" + par.Name()
+			}
 		}
 	}
 	for _, a := range c.Args {
